@@ -136,7 +136,12 @@ fn eval(ctx: &Ctx, case: &Case) -> Verdict {
     {
         let input = format!("c09.{}", case.container.ext());
         let text = case.map.file_text(&case.cs);
-        for (what, content) in [("without a final newline", text.trim_end_matches('\n').to_string()), ("with CRLF line endings", text.replace('\n', "\r\n"))] {
+        for (what, content) in [
+            ("without a final newline", text.trim_end_matches('\n').to_string()),
+            ("with CRLF line endings", text.replace('\n', "\r\n")),
+            ("with CRLF line endings and no final line feed", text.trim_end_matches('\n').replace('\n', "\r\n") + "\r"),
+            ("with CRLF line endings and nothing after the last entry", text.trim_end_matches('\n').replace('\n', "\r\n")),
+        ] {
             std::fs::write(dir.join("c09v.samples"), content).expect("write");
             let r = cli::sfs(ctx, &["create", "-S", "c09v.samples", &input], cli::Input::Null, &dir);
             ensure!(r.code == base.code && r.stdout == base.stdout, "the samples file {what} gives a different result than the inline list `{}`: {} vs {}", case.map.inline_arg(&case.cs), r.describe(), base.describe());
@@ -228,7 +233,7 @@ fn eval(ctx: &Ctx, case: &Case) -> Verdict {
 pub fn check(ctx: &Ctx) -> Check {
     let parts: Vec<Box<dyn Part>> = vec![Box::new(RandomPart {
         name: "axes-and-permutations",
-        rule: "call sets x duplicate-free sample lists (subset, order, named/unnamed mix, 1..4 labels) x a permutation of the input's sample columns x two permutations of the list: absolute (reference model: axes in first-appearance order, lengths 2*count+1, exact values) and metamorphic, all byte-identical stdout: permuted sample columns, list permuted keeping the label order, --samples vs --samples-file; a list permutation changing the label order by pi must give the baseline with axes transposed by pi; the samples file also without final newline, with CRLF, and read from a pipe (`-S /dev/stdin`); ghost sample (alone, and with a projection / --strict -q) and empty samples file are errors; ~11 runs per case; non-trivial = >=2 labels with different sample counts and a non-identity column permutation",
+        rule: "call sets x duplicate-free sample lists (subset, order, named/unnamed mix, 1..4 labels) x a permutation of the input's sample columns x two permutations of the list: absolute (reference model: axes in first-appearance order, lengths 2*count+1, exact values) and metamorphic, all byte-identical stdout: permuted sample columns, list permuted keeping the label order, --samples vs --samples-file; a list permutation changing the label order by pi must give the baseline with axes transposed by pi; the samples file also without final newline, with CRLF (complete, cut after the last CR, cut before it), and read from a pipe (`-S /dev/stdin`); ghost sample (alone, and with a projection / --strict -q) and empty samples file are errors; ~11 runs per case; non-trivial = >=2 labels with different sample counts and a non-identity column permutation",
         cases: ctx.tier.pick(2000, 60_000),
         strategy: Box::new(|| strategy().boxed()),
         eval: Box::new(eval),
